@@ -433,6 +433,11 @@ func (ex *Exec) strCat(a, b *Term) *Term {
 	if b.Op == "st.empty" {
 		return a
 	}
+	if la, ok := ex.litOf(a); ok {
+		if lb, ok := ex.litOf(b); ok {
+			return ex.strLit(la + lb)
+		}
+	}
 	return ex.D.app("st.cat", SStr, a, b)
 }
 
